@@ -412,6 +412,12 @@ func init() {
 			p.Cfg.Snap = true
 			p.Cfg.ReadBack = true
 			p.Ops = genHistory(r, pf, &p.Cfg)
+			if n%9 == 8 {
+				// the same kind of history arriving through the add-checkpoint endpoint (handler, adapter, witness)
+				q := scenarios["C10"].Gen(r, tier, n)
+				q.Scenario = "endpoint-refusals"
+				return q
+			}
 			switch n % 4 {
 			case 3:
 				// SQLite with faults inside the database driver
@@ -438,6 +444,9 @@ func init() {
 			return p
 		},
 		Run: func(t *testing.T, p *Plan) *Outcome {
+			if p.Scenario == "endpoint-refusals" {
+				return c03ViaBastion(t, p)
+			}
 			res, out := baseOutcome(t, p, false)
 			if len(out.Infra) > 0 {
 				return out
